@@ -126,6 +126,45 @@ def _build(config, repo, outdir):
     os.rename(tmp_out, outdir)
 
 
+def fixtures_facts():
+    """facts of /verif/fixtures (the verifier's positive/negative controls); cached by the hash of its sources + driver"""
+    ensure_driver()
+    fx = os.path.join(VERIF, "fixtures")
+    h = hashlib.sha256()
+    for rel in ("Cargo.toml", os.path.join("src", "lib.rs")):
+        with open(os.path.join(fx, rel), "rb") as f:
+            h.update(f.read())
+    with open(DRIVER, "rb") as f:
+        h.update(hashlib.sha256(f.read()).digest())
+    outdir = os.path.join(CACHE, "facts", "fixtures-" + h.hexdigest()[:16])
+    out = os.path.join(outdir, "verif_fixtures.json")
+    lock = os.path.join(CACHE, "lock-fixtures")
+    os.makedirs(CACHE, exist_ok=True)
+    with open(lock, "w") as lf:
+        fcntl.flock(lf, fcntl.LOCK_EX)
+        try:
+            if not os.path.isfile(out):
+                tgt = os.path.join(CACHE, "tgt", "fixtures")
+                shutil.rmtree(os.path.join(tgt, "debug", ".fingerprint"), ignore_errors=True)
+                tmp = outdir + ".building"
+                shutil.rmtree(tmp, ignore_errors=True)
+                os.makedirs(tmp)
+                env = dict(os.environ)
+                env.update(CARGO_NET_OFFLINE="true", LD_LIBRARY_PATH=os.path.join(_sysroot(), "lib") + ":" + env.get("LD_LIBRARY_PATH", ""),
+                           RUSTFLAGS="-Zmir-opt-level=0 -Awarnings", RUSTC_WORKSPACE_WRAPPER=DRIVER, CARGO_TARGET_DIR=tgt,
+                           MIRFACTS_CRATES="verif_fixtures", MIRFACTS_OUT=tmp)
+                env.pop("RUSTC_WRAPPER", None)
+                p = subprocess.run(["cargo", "+nightly", "check", "--offline"], cwd=fx, env=env, stdout=subprocess.PIPE, stderr=subprocess.STDOUT, text=True)
+                if p.returncode != 0 or not os.path.isfile(os.path.join(tmp, "verif_fixtures.json")):
+                    sys.stderr.write(p.stdout[-3000:])
+                    raise RuntimeError("fixture facts could not be built")
+                shutil.rmtree(outdir, ignore_errors=True)
+                os.rename(tmp, outdir)
+        finally:
+            fcntl.flock(lf, fcntl.LOCK_UN)
+    return out
+
+
 def ensure(configs, repo=None):
     """Return {config: dir} with fresh fact files for the current source tree."""
     repo = repo or repo_root()
